@@ -88,6 +88,18 @@ def check_C13(tier, seed):
     from .checks_traces import run_traces
     run_traces(out, "C13", tier)
     from .checks_dimsets import run_dimset_traces
+    # refused table imports (one fault each) into pre-filled arrays: the array is exactly what it was ({C12,C13}-tagged problems only)
+    from .checks_tables import tab_model, sig_tab
+    from .checks_ctor import _only_tagged
+    from . import replay_tables
+    tvec = []
+    for m, res in core.run_models([tab_model("import", 2, 1, {1, 2, 6})], seed=out.seed):
+        out.add_tlc(m, res)
+        tvec += [v for v in res.vectors if v.get("faults")]
+    tbad = core.replay_parallel(replay_tables.run_vector, tvec)
+    out.replayed += len(tvec)
+    out.extra["refused_import_vectors"] = len(tvec)
+    out.judge(core.for_property(_only_tagged(tbad), "C13"), "tables", sig_tab)
     run_dimset_traces(out, "C13", tier)     # arrays built from dimension sets after every call of random set programs (also in-place edits)
     out.assumptions += [
         "ShapeInv, FailedCallsChangeNothing and InputsUnchanged are TLC-checked on the contract; the replay re-checks "
